@@ -23,22 +23,27 @@ import itertools
 import numpy as np
 
 from mc import combi
-from mc.choice import Env, explore
+from mc.choice import Env, Stats, explore
 from mc.ref import c07_ref as R
 from mc.rngenv import RngEnv, installed
 from mc.util import close, reldev, rng_for, fingerprint
 
 PROPERTY = 'C07'
 LEVEL = 'exploration'
-RULE = ('One evaluation = one call of boot_noise_ceiling / cv_noise_ceiling (or one candidate '
-        'scoring / one leak perturbation run) on a data stack, judged against the reference. '
-        'Stacks: all ordered stacks of 2 (thorough: 3) vectors over {0,1,2}^3; strided subset of '
-        'ordered pairs over {0,1,2}^6 x every common NaN mask of <=2 entries; fixed fills for '
-        '2-4 RDMs x 3-4 conditions x every set partition of the RDMs x label namings x NaN '
-        'masks; x methods cosine, corr, rho-a (optimality, leave-one-out) and cosine_cov, '
-        'corr_cov (ordering). Non-trivial = the measure is defined for every data RDM and every '
-        'pooled prediction (otherwise excluded and counted); distinct = distinct case '
-        'descriptor (data, mask, grouping labels, method, sub-check).')
+RULE = ('One evaluation = one execution of library code judged by the reference: (boot) one '
+        'boot_noise_ceiling call on (data stack, common NaN mask, grouping labels, method); '
+        '(candidates) one vectorised compare() of all candidates against that stack; (inv) one pair of '
+        'boot_noise_ceiling calls before/after transforming one RDM; (leak) one perturbation of a left-out '
+        'group followed by sets_leave_one_out_rdm + pool_rdm and a recorded boot_noise_ceiling; (cv) one '
+        'fold-generator call + cv_noise_ceiling (ceil_set None: boot_noise_ceiling per fold as crossval '
+        'does) under one fully specified sequence of random draws. Stacks: all ordered stacks of 2 '
+        '(thorough: 3; quick: strided triples) vectors over {0,1,2}^3; a strided subset of ordered pairs over '
+        '{0,1,2}^6 x every common NaN mask of <=2 entries; fixed fills for 2-4 RDMs x 3-4 conditions x '
+        'every set partition of the RDMs x label namings x NaN masks; methods cosine, corr, rho-a '
+        '(optimality, leave-one-group-out) and cosine_cov, corr_cov (ordering only). Non-trivial = the '
+        'measure is defined for every data RDM and every pooled prediction involved (otherwise the input '
+        'is excluded and counted, not judged); distinct = distinct case descriptor '
+        '(data or fill key, mask, labels, method, sub-check parameters, draw sequence).')
 ASSUMPTIONS = [
     'mc/ref/c07_ref.py (normalise-then-average pooling, closed-form optimum) is correct; its '
     'optimum is cross-checked against the exhaustive candidate grid in every optimality case',
@@ -208,7 +213,10 @@ def shards(tier, seed):
         for n_rdm in (2, 3, 4):
             for n_cond in conds:
                 for key, style in cvfills:
-                    parts = 3 if (n_rdm == 4 and gen in ('k_fold', 'k_fold_rdm', 'random')) else 1
+                    parts = 1
+                    if gen in ('k_fold', 'k_fold_rdm', 'random') and n_rdm >= 3:
+                        # split by set partition of the RDMs (5 / 15 of them)
+                        parts = combi.BELL[n_rdm] if thorough else (5 if n_rdm == 4 else 1)
                     for c in range(parts):
                         out.append({'kind': 'CV', 'gen': gen, 'n_rdm': n_rdm, 'n_cond': n_cond,
                                     'key': key, 'style': style, 'chunk': [c, parts]})
@@ -648,11 +656,14 @@ def _shard_cv(shard, ctx):
     masks = [[]]
     if rdm_only and n_cond == 4:
         masks = [[], [1], [0, 4]]
-    for rgs, tag, labels in _labelings(n_rdm, False)[shard['chunk'][0]::shard['chunk'][1]]:
+    partition_no = {rgs: i for i, rgs in enumerate(combi.set_partitions(n_rdm))}
+    for rgs, tag, labels in _labelings(n_rdm, False):
+        if partition_no[rgs] % shard['chunk'][1] != shard['chunk'][0]:
+            continue
         n_groups = len(set(labels))
         for mask in masks:
             for params, random in _cv_params(gen, n_groups, n_cond, thorough):
-                if random and tag != 'desc' and not (thorough and gen == 'k_fold_rdm'):
+                if random and tag != 'desc' and n_groups > 1 and not (thorough and gen == 'k_fold_rdm'):
                     continue        # draws and label names are independent: one naming under draws
                 for m in PLAIN + (WHITE if gen == 'loo_rdm' and n_groups == n_rdm else []):
                     case = {'kind': 'cv', 'gen': gen, 'fill': fill, 'n_cond': n_cond, 'mask': mask,
@@ -660,15 +671,22 @@ def _shard_cv(shard, ctx):
                     if not random:
                         _cv_exec(case, Env([]), ctx)
                         continue
+                    rotating = m == PLAIN[(n_groups + len(params)) % 3]
+                    first2 = (shard['key'], shard['style']) in ((0, 0), (0, 2))
                     if gen == 'k_fold_rdm':
                         bound = None            # every shuffle outcome (<= 4! = 24)
+                    elif not thorough:
+                        bound = 1 if rotating else 0    # deviations explored for one method per case
+                    elif rotating:
+                        bound = 2 if (n_rdm <= 3 and n_cond == 6 and first2) else 1
                     else:
-                        bound = 2 if thorough else 1
-                    if m != PLAIN[(n_groups + len(params)) % 3] and bound is not None and not thorough:
-                        bound = 0               # quick: deviations explored for one method per case
+                        bound = 1 if first2 else 0
+                    stats = Stats()
                     for _env, _ in explore(lambda env: _cv_exec(case, env, ctx), bound=bound,
-                                           max_exec=600):
+                                           max_exec=5000, stats=stats):
                         pass
+                    if stats.capped:
+                        ctx.count('cap_hit')
 
 
 def _cv_params(gen, n_groups, n_cond, thorough=True):
